@@ -138,7 +138,7 @@ func combineMembers(c *Case, st *Stats) ([]strategy.Action, bool) {
 	var lists [][]strategy.Action
 	m := -1
 	for _, sub := range c.Subs {
-		d := &Case{Family: "strat", Lens: c.Lens, Shape: c.Shape, DataSeed: c.DataSeed}
+		d := &Case{Family: "strat", Lens: c.Lens, Shape: c.Shape, DataSeed: c.DataSeed, Variant: c.Variant}
 		setSpec(d, sub)
 		r := runStrat(d, PipeOpts{SimOpts: SimOpts{Policy: simrt.PolicySpec{Name: "fifo"}}})
 		st.noteSim(&r.SimOut)
